@@ -367,6 +367,15 @@ public:
                 w.pump(nullptr);
                 settle();
                 const bool exact = device.data == file;
+                // what the job says now may differ from what it said when it finished (a later stanza must not turn a failed
+                // transfer into a successful one)
+                if (job && jobFinished && (int)job->error() != jobError) {
+                    tr.log(QStringLiteral("receiver job error changed after finished(): %1 -> %2").arg(jobError).arg((int)job->error()));
+                    if (job->error() == QXmppTransferJob::NoError) {
+                        jobError = (int)QXmppTransferJob::NoError;
+                        res.probes[QStringLiteral("job_error_rewritten_after_finished")]++;
+                    }
+                }
                 tr.log(QStringLiteral("receiver: finished=%1 error=%2 received=%3/%4 exact=%5").arg(jobFinished).arg(jobError).arg(device.data.size()).arg(size).arg(exact));
                 const QString shape = QStringLiteral("%1:%2").arg(fault == 0 ? QStringLiteral("no_fault") : QStringLiteral("fault%1").arg(fault), QLatin1String(announceNames[announce & 3]));
                 // with neither size nor hash announced a stream that simply ends early looks complete to any receiver
